@@ -179,12 +179,8 @@ func c18c(c *Ctx, v *variants.Variant) {
 		}
 	}
 	pf := v.Func("", "Parse")
-	okParse := false
-	if pf != nil && len(pf.Body.List) == 1 {
-		if rs, ok := pf.Body.List[0].(*ast.ReturnStmt); ok && len(rs.Results) == 1 && strings.HasPrefix(nospace(rs.Results[0]), "newParser(") && strings.HasSuffix(nospace(rs.Results[0]), ").parse(g)") {
-			okParse = true
-		}
-	}
+	okParse, _ := parseForwards(c, v)
+	_ = pf
 	if !okParse {
 		bad = append(bad, "Parse does not allocate a fresh parser per call and use it only as receiver")
 	}
